@@ -50,6 +50,14 @@ PCK = ["/repo/tests/data/jpl/pck00010.tpc", "/repo/tests/data/jpl/gm_de431.tpc"]
 AU = 149597870700.0
 
 _G = {}
+_KEEP = []  # every Date / Orbit made outside the dedicated 'temporaries' part stays alive for the life of the worker:
+# no object address is ever re-used between cases, so these cases cannot depend on the allocator (the idiom with
+# short-lived dates is exercised, deterministically, by check_temps)
+
+
+def _keep(*objs):
+    _KEEP.extend(objs)
+    return objs[0]
 
 
 def setup(config):
@@ -210,7 +218,7 @@ def check_pair(case, t):
         raise RuntimeError(f"replay/worker configured for {_G.get('mode')}, case needs {case['config']}")
     a, b = case["target"], case["center"]
     names = _G["names"]
-    d = Date(case["mjd"], case["sec"], scale=case["scale"])
+    d = _keep(Date(case["mjd"], case["sec"], scale=case["scale"]))
     sig = "jpl/pair"
     clause = "frames and orbits from SPK files reproduce the vector obtained by chaining the file's segments (m, m/s, TDB argument)"
     try:
@@ -224,6 +232,7 @@ def check_pair(case, t):
             o = jpl.get_orbit(names[a], d)
             t.trans()
         x = o.copy(frame=names[b])
+        _keep(o, x)
         t.trans()
     except Exception as e:
         t.fail(sig + "/raises", clause, case, "a state", repr(e), f"{names.get(a)} -> {names.get(b)}")
@@ -264,7 +273,7 @@ def check_spacecraft(case, t):
         raise RuntimeError(f"replay/worker configured for {_G.get('mode')}, case needs {case['config']}")
     b = case["center"]
     names = _G["names"]
-    d = Date(case["mjd"], case["sec"], scale=case["scale"])
+    d = _keep(Date(case["mjd"], case["sec"], scale=case["scale"]))
     jd = d.change_scale("TDB").jd
     sc = np.array(SPACECRAFT)
     clause = "StateVector.copy(frame=<body>) subtracts the body's state chained from the kernel, and the reverse adds it"
@@ -276,6 +285,7 @@ def check_spacecraft(case, t):
         else:
             o = Orbit(sc, d, "cartesian", names[b], None).copy(frame="EME2000")
             want = sc - ref
+        _keep(o)
         t.trans()
     except Exception as e:
         t.fail("jpl/spacecraft/raises", clause, case, "a state", repr(e), names.get(b))
@@ -329,17 +339,18 @@ def hist_scripts(tier):
        G1/G2  o = get_orbit(a, d1|d2)
        F      in-place frame change of the most recently returned orbit (o.frame = ...)
        M      in-place form change of the most recently returned orbit (o.form = 'spherical')
+       P      that orbit propagated to the other date (o.propagate(d): attaches it to the body's shared propagator)
        C1/C2  pair conversion routed through a's segment: get_orbit(x, d1|d2).copy(frame=a)
        R1     reverse pair at d1: get_orbit(a, d1).copy(frame=x)
     (F / M need an orbit returned before)."""
     import itertools
 
-    alpha = ["G1", "G2", "F", "M", "C1", "C2", "R1"]
-    out = []
+    alpha = ["G1", "G2", "F", "M", "P", "C1", "C2", "R1"]
+    out = [["G1", "F", "P", "G1"], ["G1", "F", "P", "C1"], ["G1", "F", "P", "R1"], ["G1", "M", "P", "G1"], ["G2", "F", "P", "C2"]]
     for k in (1, 2, 3):
         for seq in itertools.product(alpha, repeat=k):
             # F / M act on the most recent orbit returned by get_orbit(a, .)
-            if any(op in ("F", "M") and not any(g in ("G1", "G2") for g in seq[:j]) for j, op in enumerate(seq)):
+            if any(op in ("F", "M", "P") and not any(g in ("G1", "G2") for g in seq[:j]) for j, op in enumerate(seq)):
                 continue
             out.append(list(seq))
     return out
@@ -357,7 +368,7 @@ def check_hist(case, t):
     x = 399 if a != 399 else 301  # partner whose conversion goes through a's segment
     other = 10 if a != 10 else 399  # target of the in-place frame change
     parent = spk_ref.chain_to_ssb(a)[0][0]
-    dates = [Date(m, sec, scale=sc) for m, sec, sc in HIST_DATES]
+    dates = [_keep(Date(m, sec, scale=sc)) for m, sec, sc in HIST_DATES]
     jds = [d.change_scale("TDB").jd for d in dates]
     clause = ("frames and orbits from SPK files reproduce the chained segments for every pair, whatever was computed before "
               "(a returned orbit belongs to the caller: it is never handed out again and never changes afterwards)")
@@ -386,7 +397,7 @@ def check_hist(case, t):
                 t.fail(sig + "/shared-object", clause, case, "a new object", f"object returned at step {ent[4]} again",
                        f"step {step} {what} returned the same Orbit object as step {ent[4]}")
                 return
-        returned.append([o, np.array(o, dtype=float).copy(), o.frame.name, str(o.form), step])
+        returned.append([_keep(o), np.array(o, dtype=float).copy(), o.frame.name, str(o.form), step])
 
     try:
         for i, op in enumerate(case["script"]):
@@ -402,14 +413,14 @@ def check_hist(case, t):
                 di = int(op[1]) - 1
                 o = jpl.get_orbit(names[x], dates[di])
                 record(o, i, op + ":get")
-                r = o.copy(frame=names[a])
+                r = _keep(o.copy(frame=names[a]))
                 t.trans(2)
                 if not value(r, x, a, di, i, "pair " + names[x] + "->" + names[a]):
                     break
             elif op == "R1":
                 o = jpl.get_orbit(names[a], dates[0])
                 record(o, i, op + ":get")
-                r = o.copy(frame=names[x])
+                r = _keep(o.copy(frame=names[x]))
                 t.trans(2)
                 if not value(r, a, x, 0, i, "pair " + names[a] + "->" + names[x]):
                     break
@@ -432,6 +443,14 @@ def check_hist(case, t):
                 returned[idx][1] = np.array(o, dtype=float).copy()
                 returned[idx][3] = str(o.form)
                 if not value(o, a, ctr, di, i, "in-place form change"):
+                    break
+            elif op == "P":
+                idx, di, ctr = last
+                o = returned[idx][0]
+                r = o.propagate(dates[1 - di])
+                t.trans()
+                record(r, i, op)
+                if not value(r, a, parent, 1 - di, i, "propagate of a returned orbit"):
                     break
             else:
                 raise ValueError(op)
@@ -473,7 +492,7 @@ def check_scales(case, t):
               "whatever its scale label and whatever was converted before")
     sc = np.array(SPACECRAFT)
     for scale in case["scales"]:
-        d = Date(case["mjd"], case["sec"], scale=scale)
+        d = _keep(Date(case["mjd"], case["sec"], scale=scale))
         jd = d.change_scale("TDB").jd
         try:
             if case["route"] == "pair":
@@ -490,6 +509,7 @@ def check_scales(case, t):
                 ref = ref + sc
                 tp += 16 * 2.2e-16 * np.linalg.norm(ref[:3])
                 tv += 16 * 2.2e-16 * np.linalg.norm(ref[3:])
+            _keep(x)
             t.trans(2)
         except Exception as e:
             t.fail("jpl/scales/raises", clause, case, "a state", repr(e), f"{names.get(a)} -> {names.get(b)} {scale}")
@@ -527,7 +547,8 @@ def check_prop(case, t):
     clause = "a JplPropagator gives the state of its object relative to the centre of its frame (m, m/s), in either direction of the segment"
     try:
         pr = jpl.JplPropagator(frames[obj].center, frames[ctr])
-        o = pr.propagate(d)
+        o = pr.propagate(_keep(d))
+        _keep(o, pr)
         t.trans()
     except Exception as e:
         t.fail(f"jpl/propagator/{direction}/raises", clause, case, "a state", repr(e), f"{names.get(obj)} wrt {names.get(ctr)}")
@@ -592,10 +613,96 @@ def check_series_hist(case, t):
     t.outcome(("series_hist", len(case["script"]), case["script"][0][0]))
 
 
+
+# ---------------------------------------------------------------------------
+# conversions in a loop over short-lived dates
+
+TEMP_ROUTES = {"pck": [(301, 399), (399, 301), (399, 10), (10, 301)], "nopck": [(301, 399), (399, 10)],
+               "none": [("Moon", "EME2000"), ("EME2000", "Moon"), ("EME2000", "Sun"), ("Sun", "Moon")]}
+
+
+def check_temps(case, t):
+    """[Orbit(state, start + timedelta(days=7*i), ..., frame A).copy(frame=B) for i in range(n)] with nothing kept alive
+    between the iterations but the numbers: each result is the reference at its own date."""
+    from beyond.dates import Date, timedelta
+    from beyond.orbits import Orbit
+
+    mode = case["config"]["jpl"]
+    if _G.get("mode") != mode:
+        raise RuntimeError("wrong worker configuration")
+    a, b = case["route"]
+    n = case["n"]
+    sc = np.array(SPACECRAFT)
+    clause = "a frame change gives the vector at the date of the state converted, whatever was converted just before"
+    if mode == "none":
+        from beyond.env import solarsystem
+
+        for nm in ("Moon", "Sun"):
+            if "ss_" + nm not in _G:
+                _G["ss_" + nm] = solarsystem.get_frame(nm)
+        fa, fb = a, b
+    else:
+        fa, fb = _G["names"][a], _G["names"][b]
+    step = case["step_days"]
+    try:
+        start = Date(case["mjd"], case["sec"])
+
+        def conv(date):
+            return np.array(Orbit(sc, date, "cartesian", fa, None).copy(frame=fb), dtype=float)
+
+        # exactly the everyday idiom: only numbers survive an iteration, the date of each state is a temporary
+        got = [conv(start + timedelta(days=step * i)) for i in range(n)]
+        t.trans(n)
+    except Exception as e:
+        t.fail("frames/temporaries/raises", clause, case, "a state", repr(e))
+        return
+    for i in range(n):
+        d = Date(case["mjd"], case["sec"]) + timedelta(days=step * i)
+        if mode == "none":
+            from beyond.env.solarsystem import get_body
+
+            def geo(nm):
+                if nm == "EME2000":
+                    return np.zeros(6)
+                return np.array(get_body(nm).propagate(d).copy(frame="EME2000", form="cartesian"), dtype=float)
+
+            ga, gb = geo(a), geo(b)
+            t.trans(2)
+            want = sc + ga - gb
+            # the analytical Sun frame has the axes of MOD (the frame of its series), the Moon frame those of EME2000
+            if b == "Sun":
+                sun_mod = np.array(get_body("Sun").propagate(d), dtype=float)
+                want = np.array(Orbit(sc + ga, d, "cartesian", "EME2000", None).copy(frame="MOD"), dtype=float) - sun_mod
+            elif a == "Sun":
+                sun_mod = np.array(get_body("Sun").propagate(d), dtype=float)
+                want = np.array(Orbit(sc + sun_mod, d, "cartesian", "MOD", None).copy(frame="EME2000"), dtype=float) - gb
+            tp = 16 * 2.2e-16 * (np.linalg.norm(ga[:3]) + np.linalg.norm(gb[:3]) + np.linalg.norm(sc[:3]))
+            tv = 16 * 2.2e-16 * (np.linalg.norm(ga[3:]) + np.linalg.norm(gb[3:]) + np.linalg.norm(sc[3:]))
+            if "Sun" in (a, b):
+                # the Sun's state lives in MOD: one more rotation of 1.5e11 m
+                tp *= 4
+                tv *= 4
+        else:
+            jd = d.change_scale("TDB").jd
+            ref, (tp, tv), _ = _ref_pair(a, b, jd, start=a)
+            want = ref + sc
+            tp += 16 * 2.2e-16 * np.linalg.norm(want[:3])
+            tv += 16 * 2.2e-16 * np.linalg.norm(want[3:])
+        ep = np.max(np.abs(got[i][:3] - want[:3]))
+        ev = np.max(np.abs(got[i][3:] - want[3:]))
+        ok1 = t.margin(f"frame change in a loop over temporaries ({'analytical' if mode == 'none' else 'JPL'}): position [m over tol]", ep, tp, case)
+        ok2 = t.margin(f"frame change in a loop over temporaries ({'analytical' if mode == 'none' else 'JPL'}): velocity [m/s over tol]", ev, tv, case)
+        if not (ok1 and ok2):
+            t.fail("frames/temporaries/" + ("analytical" if mode == "none" else "jpl"), clause, case, want, got[i],
+                   f"iteration {i} of {fa} -> {fb}: |dpos|={ep:.3e} m, |dvel|={ev:.3e} m/s")
+            return
+    t.outcome(("temps", mode, str(a), str(b)))
+
+
 # ---------------------------------------------------------------------------
 
 CHECKS = dict(series=check_series, series_hist=check_series_hist, pair=check_pair, sc=check_spacecraft, config=check_config, hist=check_hist,
-              scales=check_scales, prop=check_prop)
+              scales=check_scales, prop=check_prop, temps=check_temps)
 
 
 def check_case(case, t):
@@ -627,6 +734,8 @@ def units(tier, seed):
     nsh = 4 if tier == "quick" else 12
     for c in range(nsh):
         u.append(({"jpl": "none"}, dict(part="series_hist", tier=tier, chunk=c, of=nsh)))
+    for mode in ("none", "pck", "nopck"):
+        u.append(({"jpl": mode}, dict(part="temps", tier=tier, config=mode)))
     nd = len(jpl_dates(tier))
     per = 4 if tier == "quick" else 6
     for mode in ("pck", "nopck"):
@@ -663,6 +772,13 @@ def run_unit(p, t):
                         continue
                     check_case(dict(kind="series_hist", mjd=mjd, sec=sec, script=[list(x) for x in seq]), t)
         t.sample(dict(kind="series_hist", mjd=bases[0][0], sec=bases[0][1], script=[["Sun", 0], ["Moon", 1]]))
+    elif p["part"] == "temps":
+        mode = {"jpl": p["config"]}
+        for route in TEMP_ROUTES[p["config"]]:
+            for mjd, sec, step in ((55927, 21600.0, 7), (52000, 0.0, 1), (57400, 43200.5, 30)) if p["tier"] == "quick" else (
+                    (55927, 21600.0, 7), (52000, 0.0, 1), (57400, 43200.5, 30), (53000, 100.0, 3), (58000, 86000.0, 11)):
+                check_case(dict(kind="temps", config=mode, route=list(route), mjd=mjd, sec=sec, step_days=step, n=12 if p["tier"] == "quick" else 40), t)
+        t.sample(dict(kind="temps", config=mode, route=list(TEMP_ROUTES[p["config"]][0]), mjd=55927, sec=21600.0, step_days=7, n=12))
     elif p["part"] == "scales":
         import itertools
 
